@@ -42,7 +42,7 @@ try:
         # the agent's commands refer to its _out directory relative to the worktree root
         shutil.copytree(os.path.dirname(os.path.abspath(src)), os.path.join(wt, "_out"), dirs_exist_ok=True)
         # ... or say only which package the demonstration has to be copied into
-        if copy_to and copy_to != "standalone" and os.path.isdir(os.path.join(wt, copy_to)):
+        if copy_to and copy_to != "standalone" and os.path.isdir(os.path.join(wt, copy_to)) and "cp " not in run:
             for f in demos:
                 if os.path.isfile(os.path.join(src, f)) and f.endswith(".go"):
                     shutil.copy(os.path.join(src, f), os.path.join(wt, copy_to, f))
@@ -92,4 +92,5 @@ if res.get("confirmed"):
                "confirmed": {"demo_passes_on_clean_tree": True, "demo_fails_with_patch": True, "builds": True,
                              "repository_suite_green_with_patch": True, "suite_seconds": res["suite_s"]},
                "our_checks": res["checks"], "detected_by": res["detected_by"]}, open(os.path.join(dst, "meta.json"), "w"), indent=1)
+json.dump(res, open("/tmp/confirm-%s.full.json" % name, "w"), indent=1)
 print(json.dumps({k: res[k] for k in res if k not in ("agent_meta",)}, indent=1)[:2500])
